@@ -752,7 +752,11 @@ func cosimReport(pm *Params, run, runSeed uint64, p *cosimProgram, plan *envPlan
 			minStyle = 0
 		}
 	}
-	minimal, used := shrink.Minimize(best.f, func(f *model.File) bool { return try(f, minStyle) != nil }, 3000)
+	budget := 3000
+	if strings.Contains(fail.detail, "budget:") {
+		budget = 40 // every evaluation of a compiler that runs to its progress budget costs that whole budget
+	}
+	minimal, used := shrink.Minimize(best.f, func(f *model.File) bool { return try(f, minStyle) != nil }, budget)
 	evals += used
 	_ = minimal
 	// simplify the environment: try the all-false / zero environment, then bias extremes
